@@ -40,7 +40,7 @@ func dialOK(addr string) bool {
 }
 
 func echoOK(c net.Conn) bool {
-	c.SetDeadline(time.Now().Add(3 * time.Second))
+	c.SetDeadline(time.Now().Add(20 * time.Second))
 	if _, err := c.Write([]byte("ping")); err != nil {
 		return false
 	}
@@ -218,7 +218,9 @@ static_services:
 			select {
 			case err := <-exited:
 				exited <- err
-				if err != nil {
+				// exit 0 after the signal handler ran, or death by the SIGTERM itself when the request came
+				// before the handler was installed at start-up: both are a termination; a crash (exit 2) is not
+				if err != nil && !strings.Contains(err.Error(), "signal: terminated") {
 					return nt, &verdict{"exit-status", fmt.Sprintf("after terminate the process exited with %v", err)}
 				}
 			case <-time.After(15 * time.Second):
